@@ -1704,8 +1704,10 @@ recur:
         JANET_VERIF_POINT(3, NULL);
         if (NULL != response.cb) {
             response.cb(response.msg);
-            janet_ev_dec_refcount();
         }
+        /* Every posted event was counted when it was posted, also one without a callback
+         * (janet_loop1_interrupt) */
+        janet_ev_dec_refcount();
         goto recur;
     }
 }
